@@ -7,6 +7,7 @@ Property theorems only; helper lemmas live in `KrillModel.ES.Lemmas` / `KrillMod
 scheduler (`sched`, any list of thread ids) picks who makes the next micro-step.
 -/
 import KrillModel.ES.Lemmas
+import KrillModel.ES.ObsLemmas
 import KrillModel.Sys.Lemmas
 import KrillModel.ES.Reg
 namespace KM.Props.C07
@@ -263,6 +264,27 @@ theorem rejected_only_audit (hiv : A.initVersion ≤ 1) {e : Ent A} {L : Log A} 
   rw [hfin] at hw2; cases hw2
   exact hr
 
+/-- **accepted_owns_one_version.**  An accepted command returns the updated aggregate with the
+next version and adds exactly one record (that version's key, actor, the events); nothing else
+in the store changes. -/
+theorem accepted_owns_one_version (hiv : A.initVersion ≤ 1) {e : Ent A} {L : Log A} (h : Inv e L)
+    {w : Ver A} (hw : finalOf L = some w) (i : Nat) (c : Sent A) {ev : A.Ev} {evs : List A.Ev}
+    {s' : A.State} (hp : A.process w.st c.details = .ok (ev :: evs))
+    (ha : applyEvents A w.st (ev :: evs) = some s') (hs : A.preSave s' (ev :: evs) = none) :
+    let r := command e i c
+    let rec_ : Stored A := ⟨c.actor, L.length, some c.details, .success (ev :: evs)⟩
+    r.2 = .ok ⟨w.version + 1, s'⟩ ∧
+    r.1.kv = e.kv.putCmd L.length rec_ ∧
+    Inv r.1 (L ++ [rec_]) := by
+  intro r rec_
+  have hne : L ≠ [] := by intro h0; subst h0; simp [finalOf, baseOf] at hw
+  obtain ⟨w', hw', h1, h2, _, h4⟩ := execOpt_cmd hiv h hne i c false
+  rw [hw] at hw'; cases hw'
+  have hsp : specCommand L w c = (L ++ [rec_], .ok ⟨w.version + 1, s'⟩) := by
+    simp [specCommand, hp, ha, hs, rec_]
+  simp only [hsp, Bool.false_and, Bool.false_eq_true, if_false] at h1 h2
+  exact ⟨h1, h4 rec_ rfl (by rw [hsp]), h2⟩
+
 /-- **noop_no_trace.**  A command without effect returns the current state and leaves the
 key-value scope exactly as it was: no command key, no version. -/
 theorem noop_no_trace (hiv : A.initVersion ≤ 1) {e : Ent A} {L : Log A} (h : Inv e L)
@@ -349,6 +371,168 @@ theorem history_stale_after_drop :
   decide
 
 end Audit
+
+/-! ## The oracle's predicates hold of the model
+
+The driver evaluates the Boolean predicates of `ES/Obs.lean` on what the *implementation* shows
+(stored keys, stored records, snapshot, results).  The theorems below prove the same predicates
+of the model's observation `oView` / `oRet`, for every renderer `R`: a `FAIL oracle …` verdict is
+therefore something no run of the model can produce. -/
+
+section Observed
+open KM.ES.Obs
+variable {A : Agg}
+
+theorem oView_cmds {e : Ent A} {L : Log A} (h : Inv e L) (R : Render A) :
+    (oView R e.kv).cmds = renderFrom (oCmd R) 0 L := oCmds_eq h R
+
+/-- `versions_contiguous` / `one_key_per_command`: in every reachable state the stored keys are
+`command-0 … command-(n-1)` (+ `snapshot.json`), record `k` carries version `k`, the first and
+only the first is the init command. -/
+theorem view_wellFormed {e : Ent A} {L : Log A} (h : Inv e L) (R : Render A) :
+    (oView R e.kv).wellFormed = true := by
+  unfold OView.wellFormed
+  rw [Bool.and_eq_true]
+  constructor
+  · rw [oView_cmds h R]
+    apply wfFrom_render R L 0
+    intro j c hc
+    refine ⟨by simpa using h.vers j c hc, ?_⟩
+    cases j with
+    | zero => simpa using h.head c hc
+    | succ j => simpa using h.tail (j + 1) c (by omega) hc
+  · have hk : (oView R e.kv).keys = expectedKeys L.length e.kv.snapshot.isSome := oKeys_eq h
+    have hl : (oView R e.kv).cmds.length = L.length := by rw [oView_cmds h R, length_renderFrom]
+    have hs : (oView R e.kv).snap.isSome = e.kv.snapshot.isSome := by
+      simp [oView, oSnap]
+    rw [hk, hl, hs]; simp
+
+theorem view_wellFormed_reachable (hiv : A.initVersion ≤ 1) (ops : List (Op A)) (R : Render A) :
+    (oView R (run (Ent.empty : Ent A) ops).kv).wellFormed = true :=
+  view_wellFormed (run_refines hiv inv_empty ops) R
+
+/-- Appending a record to the log appends its rendering to the view and changes nothing else. -/
+theorem appendedOne_of_append {e e' : Ent A} {L : Log A} {sc : Stored A} (h : Inv e L)
+    (h' : Inv e' (L ++ [sc])) (R : Render A) (hsnap : e'.kv.snapshot = e.kv.snapshot)
+    (hver : sc.version = L.length) (isErr : Bool) (kind : String)
+    (heff : match (oCmd R L.length sc).effect with
+      | .err k => isErr = true ∧ k = kind
+      | .ok _ => isErr = false
+      | .init _ => False) :
+    appendedOne (oView R e.kv) (oView R e'.kv) sc.actor isErr kind = true := by
+  unfold appendedOne
+  have hc : (oView R e.kv).cmds = renderFrom (oCmd R) 0 L := oView_cmds h R
+  have hc' : (oView R e'.kv).cmds = renderFrom (oCmd R) 0 L ++ [oCmd R L.length sc] := by
+    rw [oView_cmds h' R, renderFrom_append]; simp [renderFrom]
+  have hlen : (renderFrom (oCmd R) 0 L).length = L.length := length_renderFrom _ _ _
+  have hs : (oView R e'.kv).snap = (oView R e.kv).snap := by simp [oView, oSnap, hsnap]
+  rw [hc, hc', hs, hlen]
+  rw [List.take_left' hlen, List.drop_left' hlen]
+  simp only [beq_self_eq_true, Bool.true_and]
+  have h1 : (oCmd R L.length sc).key = L.length := rfl
+  have h2 : (oCmd R L.length sc).version = L.length := hver
+  have h3 : (oCmd R L.length sc).actor = sc.actor := rfl
+  simp only [h1, h2, h3, beq_self_eq_true, Bool.true_and]
+  cases hE : (oCmd R L.length sc).effect with
+  | init s => rw [hE] at heff; exact heff.elim
+  | ok s => rw [hE] at heff; simp [heff]
+  | err k => rw [hE] at heff; simp [heff.1, heff.2]
+
+/-- `rejected_only_audit` on observations. -/
+theorem rejected_only_audit_obs (hiv : A.initVersion ≤ 1) {e : Ent A} {L : Log A} (h : Inv e L)
+    {w : Ver A} (hw : finalOf L = some w) (i : Nat) (c : Sent A) {err : A.Err}
+    (hp : A.process w.st c.details = .error err) (R : Render A) :
+    rejectedOnlyAudit (oView R e.kv) (oView R (command e i c).1.kv) c.actor
+      (oRet R (command e i c).2) = true := by
+  obtain ⟨h1, h2, h3, _⟩ := rejected_only_audit hiv h hw i c hp
+  rw [h1]
+  simp only [oRet, rejectedOnlyAudit]
+  exact appendedOne_of_append (sc := ⟨c.actor, L.length, some c.details, .error err⟩) h h3 R
+    (by rw [h2]; rfl) rfl true (R.err err) (by simp [oCmd])
+
+/-- `versions_consecutive` / `one_key_per_command` for an accepted command, on observations. -/
+theorem accepted_owns_one_version_obs (hiv : A.initVersion ≤ 1) {e : Ent A} {L : Log A}
+    (h : Inv e L) {w : Ver A} (hw : finalOf L = some w) (i : Nat) (c : Sent A) {ev : A.Ev}
+    {evs : List A.Ev} {s' : A.State} (hp : A.process w.st c.details = .ok (ev :: evs))
+    (ha : applyEvents A w.st (ev :: evs) = some s') (hs : A.preSave s' (ev :: evs) = none)
+    (R : Render A) :
+    acceptedOrNoop (oView R e.kv) (oView R (command e i c).1.kv) c.actor (w.version + 1) = true := by
+  obtain ⟨_, h2, h3⟩ := accepted_owns_one_version hiv h hw i c hp ha hs
+  have hne : L ≠ [] := by intro h0; subst h0; simp [finalOf, baseOf] at hw
+  have hv := finalOf_version hiv hne hw
+  have hl : (oView R e.kv).cmds.length = L.length := by rw [oView_cmds h R, length_renderFrom]
+  have hl' : (oView R (command e i c).1.kv).cmds.length = L.length + 1 := by
+    rw [oView_cmds h3 R, length_renderFrom]; simp
+  have happ := appendedOne_of_append (sc := ⟨c.actor, L.length, some c.details, .success (ev :: evs)⟩)
+    h h3 R (by rw [h2]; rfl) rfl false "" (by simp [oCmd])
+  unfold acceptedOrNoop
+  rw [hl, hl']
+  have : ¬ (L.length + 1 = L.length) := by omega
+  simp [this, hv]
+  exact happ
+
+/-- `noop_no_trace` on observations. -/
+theorem noop_no_trace_obs (hiv : A.initVersion ≤ 1) {e : Ent A} {L : Log A} (h : Inv e L)
+    {w : Ver A} (hw : finalOf L = some w) (i : Nat) (c : Sent A)
+    (hp : A.process w.st c.details = .ok []) (R : Render A) :
+    acceptedOrNoop (oView R e.kv) (oView R (command e i c).1.kv) c.actor w.version = true := by
+  obtain ⟨_, h2, _⟩ := noop_no_trace hiv h hw i c hp
+  have hne : L ≠ [] := by intro h0; subst h0; simp [finalOf, baseOf] at hw
+  have hv := finalOf_version hiv hne hw
+  have hl : (oView R e.kv).cmds.length = L.length := by rw [oView_cmds h R, length_renderFrom]
+  unfold acceptedOrNoop
+  rw [h2]
+  simp [noTrace, hl, hv]
+
+/-- `presave_failure_no_trace` on observations. -/
+theorem presave_failure_no_trace_obs (hiv : A.initVersion ≤ 1) {e : Ent A} {L : Log A}
+    (h : Inv e L) {w : Ver A} (hw : finalOf L = some w) (i : Nat) (c : Sent A) {ev : A.Ev}
+    {evs : List A.Ev} {s' : A.State} {err : A.Err}
+    (hp : A.process w.st c.details = .ok (ev :: evs))
+    (ha : applyEvents A w.st (ev :: evs) = some s') (hs : A.preSave s' (ev :: evs) = some err)
+    (R : Render A) :
+    noTrace (oView R e.kv) (oView R (command e i c).1.kv) = true := by
+  rw [presave_failure_no_trace hiv h hw i c hp ha hs]
+  simp [noTrace]
+
+/-- `history_lists_all` on observations (unpaged query). -/
+theorem history_lists_all_obs {e : Ent A} {L : Log A} (h : Inv e L) (i : Nat) (cached : Bool)
+    (R : Render A) :
+    let hist := (commandHistory e i cached {}).2
+    historyListsAll (oView R e.kv) 0 none none hist.total (hist.commands.map (oRec R)) = true := by
+  intro hist
+  have hc := (commandHistory_spec h i cached).1
+  have hcmds : hist.commands = (L.drop 1).map Stored.toRecord := by
+    simp only [hist]; rw [hc]; simp [recordsUpTo]
+  have htot : hist.total = hist.commands.length := by
+    simp only [hist, commandHistory]
+    cases cached <;> simp [(historyFor_all _).1, (historyFor_all _).2]
+  -- rendering commutes with dropping the init command
+  have hren : ∀ (l : List (Stored A)) (k : Nat),
+      (renderFrom (oCmd R) k l).map oRecOfCmd = l.map (fun c => oRec R c.toRecord) := by
+    intro l
+    induction l with
+    | nil => intro k; rfl
+    | cons c t ih =>
+      intro k
+      simp only [renderFrom, List.map_cons, ih]
+      congr 1
+      unfold oRecOfCmd oRec oCmd Stored.toRecord oResult
+      cases c.effect <;> rfl
+  have hdrop : ∀ (l : List (Stored A)) (k : Nat),
+      (renderFrom (oCmd R) k l).drop 1 = renderFrom (oCmd R) (k + 1) (l.drop 1) := by
+    intro l k; cases l <;> rfl
+  have hfilter : ∀ l : List ORec, l.filter (fun _ => true) = l := by
+    intro l; induction l with
+    | nil => rfl
+    | cons a t ih => simp [List.filter, ih]
+  unfold historyListsAll
+  rw [oView_cmds h R, hdrop, hren, htot, hcmds]
+  simp only [hfilter, List.drop_zero, List.length_map, List.map_map, beq_self_eq_true, Bool.true_and]
+  rw [List.take_of_length_le (by simp)]
+  simp [Function.comp_def]
+
+end Observed
 
 /-! ## The lock log of the implementation -/
 
